@@ -168,6 +168,11 @@ def create_box_rule(cx):
                   'vertices first, triangles second, with the requested solidity', where=b.file)
 
 def run(cx):
+    # the public entry points are the analysed algorithms on every path (no shortcut that answers from a flag)
+    for fn, pat, what in (('geom3::mesh::Mesh::get_patches', '(call *patches::compute_patch_indices (param self))', 'get_patches is the flood fill over shared edges for every mesh (a solid mesh can hold several bodies)'),):
+        b = cx.fn(fn)
+        if b:
+            cx.expect('EXPR', fn.split('::')[-1] + ':delegates', cx.retval(b), pat, what, where=b.file)
     # ---------------------------------------------------------------- TERM
     for fn, nloops in ((f'{ED}::boundary_loops', 1), (f'{PA}::take_one_boundary', 1), (f'{PA}::compute_boundary_points', 2),
                        (f'{PA}::compute_patch_indices', 3), ('raster3::clusters_from_sparse', 5), (f'{ED}::identify_edges', 1),
